@@ -3,18 +3,22 @@
 The facts are decided on what the code computes, not on how it is spelled:
 * path obligations of run_sim are reachability questions on its CFG; the nodes that play a role (change test, flag that suppresses the
   pre-solve phase, trial counter, time advance) are found by what they do, temporaries are followed through their single definition;
-* small pure functions (ControlAction.__init__, Comparison.parse, ValueCondition.__new__, Control.__init__/update_condition,
-  Control._conditional_control, the INP reader of a conditional control line) are EVALUATED on a finite set of inputs by a concrete
-  interpreter with opaque objects (`_concrete`), so if/elif chains, early returns, lookup tables and conditional expressions are alike;
-* effects of methods (setattr + notify, the change tracker's bookkeeping, what is reported / stored as pressure) are read off the
-  events of a path-enumerating symbolic execution (sa/symx.py), in which locals and hoisted sub-expressions disappear.
+* the behaviour of the small methods the statement rests on (ControlAction.__init__ / run_control_action / target, Subject.notify,
+  ControlChangeTracker.update, Rule.is_control_action_required / run_control_action, ValueCondition.evaluate / __new__, Comparison.parse,
+  Control.__init__ / update_condition / _conditional_control, TankLevelCondition.evaluate, the INP reader of a conditional control line)
+  is obtained by EVALUATING their bodies on a finite set of abstract inputs with a concrete interpreter with opaque objects (`_concrete`:
+  nothing of the repository is imported or run), and comparing what they do -- values returned, fields written, observers told, calls
+  made -- with what the statement needs; if/elif chains, early returns, lookup tables, conditional expressions, renamed or hoisted
+  locals, extracted helpers and merged loops are all alike to an evaluator;
+* what is stored / reported as junction pressure is compared as sympy expressions obtained by symbolic execution (sa/symx.py) with a
+  finite case split on the isolation flag; the remaining effect facts (reset of the reference point, the post-solve loop) are read off
+  the events of the symbolic execution, in which locals and hoisted sub-expressions disappear.
 """
 import ast
-import re
 
-from ..src import walk, calls, call_name, dotted, const, loc, unparse, norm, AnchorError, ExtractError, last_attr, parent
+from ..src import walk, const, loc, unparse, AnchorError, ExtractError, last_attr, parent
 from ..cfg import CFG
-from ..peval import Evaluator, Obj, Unknown, Raised, Returned
+from ..peval import Obj, Unknown, Raised
 from ..symx import SymExec, Opaque
 
 CORE = "wntr/sim/core.py"
@@ -224,6 +228,56 @@ def _loop_vars(o):
     return out
 
 
+def _loop_sources(fn, o):
+    """loop iterable text (as in the events of path o) -> (what is iterated: the iterable with single-definition temporaries expanded and
+    list()/tuple()/iter() copies removed, projection): projection is True when the loop runs over `[a for a, ... in X]`, i.e. over the FIRST
+    components of the items of X (then `what` is X)."""
+    defs = _name_defs(fn)
+    fors = [n for n in walk(fn) if isinstance(n, ast.For)]
+    out = {}
+    for e in o.events:
+        if e[0] != "loop" or e[1] == "while":
+            continue
+        cand = [f for f in fors if unparse(f.target) == e[1] and f.lineno == e[3]] or [f for f in fors if unparse(f.target) == e[1]]
+        src, proj = None, False
+        if len(cand) == 1:
+            it = _expand(fn, cand[0].iter, _defs=defs)
+            while True:
+                if isinstance(it, ast.Call) and isinstance(it.func, ast.Name) and it.func.id in ("list", "tuple", "iter") and len(it.args) == 1 and not it.keywords:
+                    it = it.args[0]
+                    continue
+                if isinstance(it, (ast.ListComp, ast.GeneratorExp)) and len(it.generators) == 1 and not it.generators[0].ifs and not proj:
+                    g_ = it.generators[0]
+                    if isinstance(g_.target, ast.Name) and isinstance(it.elt, ast.Name) and it.elt.id == g_.target.id:
+                        it = g_.iter                      # [x for x in X] is X
+                        continue
+                    if isinstance(g_.target, (ast.Tuple, ast.List)) and g_.target.elts and isinstance(g_.target.elts[0], ast.Name) and \
+                            isinstance(it.elt, ast.Name) and it.elt.id == g_.target.elts[0].id:
+                        it, proj = g_.iter, True
+                        continue
+                break
+            src = unparse(it)
+        out[e[2]] = (src if src is not None else e[2], proj)
+    return out
+
+
+def _loops_run_to_the_end(fn):
+    """no for-loop of fn is left by `break` / `return` (the symbolic execution summarises a loop by one generic iteration)"""
+    for n in walk(fn):
+        if isinstance(n, ast.For):
+            for x in walk(n):
+                if isinstance(x, ast.Return) or (isinstance(x, ast.Break) and _innermost_loop(x) is n):
+                    return False
+    return True
+
+
+def _innermost_loop(n):
+    p_ = parent(n)
+    while p_ is not None and not isinstance(p_, (ast.For, ast.While)):
+        p_ = parent(p_)
+    return p_
+
+
 def _strip_round(node):
     """np.round(x, 10) / round(x, 10) / np.around(x, decimals=10) -> (x, 10); anything else -> (node, None)"""
     if isinstance(node, ast.Call) and last_attr(node) in ("round", "around", "round_") and node.args:
@@ -241,7 +295,26 @@ class _Opq(Obj):
     pass
 
 
-def _concrete(repo, rel, user_hook=None, inline_depth=6):
+class _Break(Exception):
+    pass
+
+
+class _Continue(Exception):
+    pass
+
+
+class _Fn(Obj):
+    """a named object that can be called (an enum member that wraps a function ...)"""
+
+    def __init__(self, name, fn, attrs=None, cls=None):
+        Obj.__init__(self, name, attrs, cls)
+        self.fn = fn
+
+    def __call__(self, *a, **k):
+        return self.fn(*a, **k)
+
+
+def _concrete(repo, rel, user_hook=None, inline_depth=6, names=None):
     """-> (make, log): make(env) builds an evaluator; log collects every call that was not interpreted as (name, args, kwargs).
     Interpreted: the string/regex helpers of _shared._string_evaluator, isinstance over the class hierarchy of `rel`, getattr/setattr/
     hasattr on abstract objects, dict/list methods, comprehensions, f-strings, for/try statements, and calls of methods of the classes of
@@ -249,7 +322,13 @@ def _concrete(repo, rel, user_hook=None, inline_depth=6):
     from ._shared import _string_evaluator
     Ev0, hook0 = _string_evaluator(repo)
     classes = repo.classes(rel)
+    module_funcs = {n.name: n for n in repo.tree(rel).body if isinstance(n, ast.FunctionDef)}
     log = []
+    # class hierarchy: the classes of `rel` plus the network element / control classes (for isinstance only)
+    hier = {}
+    for r_ in (BASE, "wntr/network/elements.py", CTRL, rel):
+        if repo.exists(r_):
+            hier.update(repo.classes(r_))
 
     def bases(cname):
         out, todo = [], [cname]
@@ -258,12 +337,12 @@ def _concrete(repo, rel, user_hook=None, inline_depth=6):
             if c in out:
                 continue
             out.append(c)
-            if c in classes:
-                for b in classes[c].bases:
+            if c in hier:
+                for b in hier[c].bases:
                     for x in ast.walk(b):
-                        if isinstance(x, ast.Name) and x.id in classes:
+                        if isinstance(x, ast.Name) and x.id in hier:
                             todo.append(x.id)
-                        elif isinstance(x, ast.Attribute) and x.attr in classes:
+                        elif isinstance(x, ast.Attribute) and x.attr in hier:
                             todo.append(x.attr)
         return out
 
@@ -276,14 +355,13 @@ def _concrete(repo, rel, user_hook=None, inline_depth=6):
         return None, None
 
     def class_attr(d):
+        if names and d in names:
+            return names[d]
         return _Opq(d)
 
     def attr_hook(base, attr):
-        if isinstance(base, Obj) and attr not in base.attrs:
-            if isinstance(base, _Opq):
-                return _Opq(base.name + "." + attr)
-        if isinstance(base, dict) and attr in ("keys", "values", "items", "get"):
-            return NotImplemented
+        if isinstance(base, _Opq) and attr not in base.attrs:
+            return _Opq(base.name + "." + attr)
         return NotImplemented
 
     class Ev(Ev0):
@@ -371,6 +449,12 @@ def _concrete(repo, rel, user_hook=None, inline_depth=6):
         def e_Lambda(self, n):
             return _Opq("<lambda>")
 
+        def e_Tuple(self, n):
+            return tuple(self.ev(e) for e in n.elts)
+
+        def e_Set(self, n):
+            return [self.ev(e) for e in n.elts]
+
         def e_Starred(self, n):
             raise Unknown("starred")
 
@@ -404,10 +488,36 @@ def _concrete(repo, rel, user_hook=None, inline_depth=6):
                     it = list(it.keys())
                 if not isinstance(it, (list, tuple, str)):
                     raise Unknown("loop over %r" % (it,))
-                for x in it:
+                for x in list(it):
                     self.assign(s.target, x)
-                    self.block(s.body)
+                    try:
+                        self.block(s.body)
+                    except _Continue:
+                        continue
+                    except _Break:
+                        break
+                else:
+                    self.block(s.orelse)
                 return
+            if isinstance(s, ast.While):
+                fuel = 10000
+                while self.truth(self.ev(s.test)):
+                    fuel -= 1
+                    if fuel <= 0:
+                        raise Unknown("while loop at line %s does not end" % s.lineno)
+                    try:
+                        self.block(s.body)
+                    except _Continue:
+                        continue
+                    except _Break:
+                        break
+                else:
+                    self.block(s.orelse)
+                return
+            if isinstance(s, ast.Break):
+                raise _Break()
+            if isinstance(s, ast.Continue):
+                raise _Continue()
             if isinstance(s, ast.Try):
                 try:
                     self.block(s.body)
@@ -492,6 +602,18 @@ def _concrete(repo, rel, user_hook=None, inline_depth=6):
             return any(nm in bases(x.cls) for nm in names)
         raise Unknown("isinstance of %r" % (x,))
 
+    def pos_args(n, ev):
+        out = []
+        for a in n.args:
+            if isinstance(a, ast.Starred):
+                v = ev.ev(a.value)
+                if not isinstance(v, (list, tuple)):
+                    raise Unknown("starred argument %s" % unparse(a))
+                out.extend(v)
+            else:
+                out.append(ev.ev(a))
+        return out
+
     def hook(name, n, ev):
         if user_hook is not None:
             r = user_hook(name, n, ev)
@@ -499,29 +621,35 @@ def _concrete(repo, rel, user_hook=None, inline_depth=6):
                 return r
         if name == "isinstance" and len(n.args) == 2:
             return isinst(ev.ev(n.args[0]), ev.ev(n.args[1]))
-        if name == "getattr" and len(n.args) >= 2:
-            o, a = ev.ev(n.args[0]), ev.ev(n.args[1])
-            if isinstance(o, Obj) and isinstance(a, str):
-                if a in o.attrs:
-                    return o.attrs[a]
-                if len(n.args) > 2:
+        if isinstance(n.func, ast.Name) and callable(ev.env.get(name)) and (not isinstance(ev.env.get(name), Obj) or isinstance(ev.env.get(name), _Fn)):
+            return ev.env[name](*pos_args(n, ev), **{k.arg: ev.ev(k.value) for k in n.keywords if k.arg})
+        if names and name in names and isinstance(names[name], _Fn):
+            return names[name](*pos_args(n, ev), **{k.arg: ev.ev(k.value) for k in n.keywords if k.arg})
+        if name in ("getattr", "setattr", "hasattr") and not n.keywords:
+            av = pos_args(n, ev)
+            if name == "getattr" and len(av) in (2, 3):
+                o, a = av[0], av[1]
+                if isinstance(o, Obj) and isinstance(a, str):
+                    if a in o.attrs:
+                        return o.attrs[a]
+                    if len(av) > 2:
+                        if isinstance(o, _Opq):
+                            raise Unknown("getattr with default on %r" % o)
+                        return av[2]
                     if isinstance(o, _Opq):
-                        raise Unknown("getattr with default on %r" % o)
-                    return ev.ev(n.args[2])
-                if isinstance(o, _Opq):
-                    return _Opq(o.name + "." + a)
-            raise Unknown("getattr %s" % unparse(n))
-        if name == "setattr" and len(n.args) == 3:
-            o, a, v = ev.ev(n.args[0]), ev.ev(n.args[1]), ev.ev(n.args[2])
-            if isinstance(o, Obj) and isinstance(a, str):
-                o.attrs[a] = v
-                return None
-            raise Unknown("setattr %s" % unparse(n))
-        if name == "hasattr" and len(n.args) == 2:
-            o, a = ev.ev(n.args[0]), ev.ev(n.args[1])
-            if isinstance(o, Obj) and not isinstance(o, _Opq):
-                return a in o.attrs
-            raise Unknown("hasattr %s" % unparse(n))
+                        return _Opq(o.name + "." + a)
+                raise Unknown("getattr %s" % unparse(n))
+            if name == "setattr" and len(av) == 3:
+                o, a, v = av
+                if isinstance(o, Obj) and isinstance(a, str):
+                    o.attrs[a] = v
+                    return None
+                raise Unknown("setattr %s" % unparse(n))
+            if name == "hasattr" and len(av) == 2:
+                o, a = av
+                if isinstance(o, Obj) and not isinstance(o, _Opq):
+                    return a in o.attrs
+                raise Unknown("hasattr %s" % unparse(n))
         if name == "type" and len(n.args) == 1:
             o = ev.ev(n.args[0])
             if isinstance(o, Obj) and o.cls is not None:
@@ -563,17 +691,24 @@ def _concrete(repo, rel, user_hook=None, inline_depth=6):
                         return getattr(base, meth)(*a)
                     except (ValueError, IndexError):
                         raise Raised(n)
+            if isinstance(base, set):
+                a = [ev.ev(x) for x in n.args]
+                if meth in ("add", "discard", "update", "copy"):
+                    return getattr(base, meth)(*a)
+                if meth == "remove":
+                    if a[0] not in base:
+                        raise Raised(n)
+                    return base.remove(a[0])
             if isinstance(base, str) and meth in ("join",):
                 return base.join(ev.ev(n.args[0]))
-            if isinstance(base, Obj) and meth in base.attrs and callable(base.attrs[meth]):
-                return base.attrs[meth](*[ev.ev(x) for x in n.args], **{k.arg: ev.ev(k.value) for k in n.keywords if k.arg})
+            if isinstance(base, Obj) and meth in base.attrs and callable(base.attrs[meth]) and not isinstance(base.attrs[meth], Obj):
+                return base.attrs[meth](*pos_args(n, ev), **{k.arg: ev.ev(k.value) for k in n.keywords if k.arg})
             # method of a class of this module: through an instance (self), through cls, or through the class name
             cname, bound = None, True
             if isinstance(base, Obj) and not isinstance(base, _Opq) and base.cls is not None:
                 cname = base.cls
             elif isinstance(base, _Opq) and base.name in classes:
                 cname = base.name
-                selfless = True
             if cname is not None:
                 c, fn = find_method(cname, meth)
                 if fn is not None and not any(isinstance(d, ast.Name) and d.id == "property" for d in fn.decorator_list):
@@ -586,12 +721,11 @@ def _concrete(repo, rel, user_hook=None, inline_depth=6):
         r = hook0(name, n, ev)
         if r is not NotImplemented:
             return r
+        if isinstance(n.func, ast.Name) and name not in ev.env and name in module_funcs:
+            return call_method(None, module_funcs[name], None, n, ev, bound=False)
         # not interpreted: remember the call, the result is an opaque object
-        try:
-            a = [ev.ev(x) for x in n.args if not isinstance(x, ast.Starred)]
-            kw = {k.arg: ev.ev(k.value) for k in n.keywords if k.arg}
-        except Raised:
-            raise
+        a = [ev.ev(x) for x in n.args if not isinstance(x, ast.Starred)]
+        kw = {k.arg: ev.ev(k.value) for k in n.keywords if k.arg}
         log.append((name, a, kw))
         return _Opq("%s(...)#%d" % (name, len(log)))
     return make, log
@@ -714,20 +848,34 @@ def run(repo, chk):
     # the flag that suppresses the pre-solve phase (next time step + pre-solve controls) of the next iteration: the local whose truth
     # value guards the pre-solve call; on the re-solve path it must be given the value that skips that phase
     pre = g.calling("_compute_next_timestep_and_run_presolve_controls_and_rules")
-    flag = None
+    def flag_sets(name, value):
+        return g.nodes_where(lambda node, d: isinstance(node, ast.Assign) and any(isinstance(t_, ast.Name) and t_.id == name for t_ in node.targets)
+                             and isinstance(const(node.value), bool) and const(node.value) is value)
+    flag, flags = None, []
     if pre:
         s_ = g.node_ast(pre[0])
         child, p_ = s_, parent(s_)
         while p_ is not None and p_ is not rs:
             if isinstance(p_, ast.If):
                 for a, pol in _conjuncts(p_.test, True if child in p_.body else False):
-                    if isinstance(a, ast.Name) and rs_defs.get(a.id) is not None:
-                        flag = (a.id, not pol)          # the value that SKIPS the pre-solve phase
+                    if isinstance(a, ast.Name) and rs_defs.get(a.id) is not None and all(isinstance(const(x), bool) for x in rs_defs[a.id]):
+                        flags.append((a.id, not pol))          # the value that SKIPS the pre-solve phase
             child, p_ = p_, parent(p_)
+        # several boolean locals may guard the call (first_step ...): the flag is the one the re-solve path sets
+        good = [f for f in flags if st and flag_sets(*f) and g.can_reach_avoiding(st[0], [head], flag_sets(*f), drop_back=False) is None]
+        flag = (good or flags or [None])[0]
+    if flag is None:
+        # the pre-solve call is not where it used to be: fall back on the protocol of such a flag -- a boolean local that some test reads,
+        # that every re-solve path sets to one value and that the accepting path (no change) sets to the other value
+        no_change = g.succ_on(T, not T_pol)
+        for v in sorted(k for k, d_ in rs_defs.items() if d_ is not None and all(isinstance(const(x), bool) for x in d_)):
+            for val in (True, False):
+                if st and flag_sets(v, val) and g.can_reach_avoiding(st[0], [head], flag_sets(v, val), drop_back=False) is None and no_change and \
+                        any(x in g.reachable(no_change[0], g.view(drop_back=True)) for x in flag_sets(v, not val)):
+                    flag = (v, val)
     if flag is None:
         raise AnchorError("run_sim: the flag guarding the pre-solve phase not found")
-    res_true = g.nodes_where(lambda node, d: isinstance(node, ast.Assign) and any(isinstance(t_, ast.Name) and t_.id == flag[0] for t_ in node.targets)
-                             and isinstance(const(node.value), bool) and const(node.value) is flag[1])
+    res_true = flag_sets(flag[0], flag[1])
     for nm, via in (("update_model_for_controls", umc), ("trial += 1", tinc), ("resolve = True", res_true)):
         w = g.can_reach_avoiding(st[0], [head], via, drop_back=False) if st else None
         chk.expect(w is None and bool(via), "R-C05-1", "the re-solve path passes `%s` before solving again" % nm, loc(rs, g.node_ast(T)), found=g.path_text(w) if w else None)
@@ -753,15 +901,18 @@ def run(repo, chk):
     chk.fn(ps)
     okps = []
     for o in _live(_sx().run(ps)):
-        lv = _loop_vars(o)
+        lv, ls = _loop_vars(o), _loop_sources(ps, o)
         hit = False
         for cal, a, kw, lp, i in _call_events(o):
-            if cal.endswith(".run_control_action") and lp is not None and "self._postsolve_controls.check()" in lp and lp in lv:
+            if cal.endswith(".run_control_action") and lp is not None and lp in lv and "self._postsolve_controls.check()" in ls[lp][0]:
                 tv = lv[lp]
                 recv_ = cal[:-len(".run_control_action")]
-                hit = hit or (len(tv) >= 2 and recv_ == tv[0]) or (len(tv) == 1 and recv_ == tv[0] + "[0]")
+                if ls[lp][1]:
+                    hit = hit or (len(tv) == 1 and recv_ == tv[0])          # the loop runs over the controls themselves
+                else:
+                    hit = hit or (len(tv) >= 2 and recv_ == tv[0]) or (len(tv) == 1 and recv_ == tv[0] + "[0]")
         okps.append(hit)
-    chk.expect(bool(okps) and all(okps), "R-C05-1", "_run_postsolve_controls runs every post-solve control whose condition holds", loc(ps))
+    chk.expect(bool(okps) and all(okps) and _loops_run_to_the_end(ps), "R-C05-1", "_run_postsolve_controls runs every post-solve control whose condition holds", loc(ps))
     chk.floor("R-C05-1", 14)
 
     # ---------------------------------------------------------------- R-C05-2 action plumbing
@@ -781,78 +932,53 @@ def run(repo, chk):
                    "a control must act on the field that the status property / constraint builders read, never on the definition (initial_*) fields", expected=v, found=mapping.get(k))
     chk.sample({"rule": "R-C05-2", "ControlAction private attribute map": mapping})
 
-    def writes_then_notifies(fn, attr_field):
-        """every normally ending path: exactly one setattr(self._target_obj, self.<attr_field>, self._value), later self.notify(); the three
-        fields are not overwritten on the way"""
-        outs = _live(_sx().run(fn))
-        res, found = [], []
-        for o in outs:
-            ce = _call_events(o)
-            sets = [(a, i) for cal, a, kw, lp, i in ce if cal == "setattr"]
-            found.append([("setattr", a) for a, i in sets] + [cal for cal, a, kw, lp, i in ce if cal == "self.notify"])
-            clobber = [e for e in o.events if e[0] == "store" and e[1] in ("self._target_obj", "self." + attr_field, "self._value")]
-            okp = len(sets) == 1 and sets[0][0] == ["self._target_obj", "self." + attr_field, "self._value"] and not clobber and \
-                any(cal == "self.notify" and lp is None and i > sets[0][1] for cal, a, kw, lp, i in ce)
-            res.append(okp)
-        return bool(res) and all(res), found
-
     def returns(fn):
         outs = _live(_sx().run(fn))
         return sorted({_t(o.ret) for o in outs})
+
+    # running an action, by evaluation on a link with two subscribed observers: when the observers are told, the run-time field already
+    # holds the commanded value, nothing else on the link was touched, and every observer is told once
     rca = repo.func(CTRL, "ControlAction.run_control_action")
-    okr, found = writes_then_notifies(rca, "_private_attribute")
+    okr, found = _action_run_facts(repo, "ControlAction", {"_attribute": "status", "_private_attribute": "_user_status"}, "_user_status")
     chk.expect(okr, "R-C05-2", "ControlAction.run_control_action = setattr(target, private attribute, value) then notify()", loc(rca), found=found)
     tg = repo.func(CTRL, "ControlAction.target")
-    r = returns(tg)
-    chk.expect(r == ["(self._target_obj, self._attribute)"], "R-C05-2", "ControlAction.target() reports the PUBLIC attribute", loc(tg), found=r)
+    okr, found = _action_target_facts(repo, "ControlAction", {"_attribute": "status", "_private_attribute": "_user_status"})
+    chk.expect(okr, "R-C05-2", "ControlAction.target() reports the PUBLIC attribute", loc(tg), found=found)
     ica = repo.func(CTRL, "_InternalControlAction.run_control_action")
-    okr, found = writes_then_notifies(ica, "_internal_attr")
+    okr, found = _action_run_facts(repo, "_InternalControlAction", {"_internal_attr": "_internal_status", "_property_attr": "status"}, "_internal_status")
     chk.expect(okr, "R-C05-2", "_InternalControlAction writes the internal attribute and notifies", loc(ica), found=found)
     itg = repo.func(CTRL, "_InternalControlAction.target")
-    r = returns(itg)
-    chk.expect(r == ["(self._target_obj, self._property_attr)"], "R-C05-2", "_InternalControlAction.target() reports the public property to compare", loc(itg), found=r)
+    okr, found = _action_target_facts(repo, "_InternalControlAction", {"_internal_attr": "_internal_status", "_property_attr": "status"})
+    chk.expect(okr, "R-C05-2", "_InternalControlAction.target() reports the public property to compare", loc(itg), found=found)
 
     # the change tracker: for every reference point, target in `changed` <=> current public value differs from the value at the reference point
     upf = repo.func(CTRL, "ControlChangeTracker.update")
-    okt, seen = _tracker_update_facts(upf)
+    okt, seen = _tracker_update_facts(repo, upf)
     chk.expect(okt, "R-C05-2", "the change tracker compares the current PUBLIC value with the value at the reference point (a change back is not a change)", loc(upf), found=seen)
     notify = repo.func(CTRL, "Subject.notify")
-    okn = []
-    for o in _live(_sx().run(notify)):
-        lv = _loop_vars(o)
-        okn.append(any(cal.endswith(".update") and a == ["self"] and lp == "self._observers" and lv.get(lp) == [cal[:-len(".update")]] for cal, a, kw, lp, i in _call_events(o)))
-    chk.expect(bool(okn) and all(okn), "R-C05-2", "notify() informs every subscribed observer", loc(notify))
+    told = []
+    subj = Obj("the subject", {"_observers": [Obj("o%d" % i, {"update": (lambda sub, i=i: told.append(("o%d" % i, _nm(sub))))}) for i in (1, 2, 3)]}, cls="Subject")
+    make, _log = _concrete(repo, CTRL)
+    _run_concrete("Subject.notify", lambda: make({notify.args.args[0].arg: subj}, owner="Subject").run(notify.body))
+    chk.expect(told == [("o%d" % i, "the subject") for i in (1, 2, 3)], "R-C05-2", "notify() informs every subscribed observer", loc(notify), found=told)
 
     # a control is due when its condition evaluates true; running it runs the then-actions
     icar = repo.func(CTRL, "Rule.is_control_action_required")
-    due = {}
-    for val in (True, False):
-        ex = _sx(decide=lambda txt, last, val=val: val if txt == "self._condition.evaluate()" else None)
-        rows = []
-        for o in _live(ex.run(icar)):
-            which = [e[2] for e in o.events if e[0] == "store" and e[1] == "self._which"]
-            ret = o.ret
-            rows.append((ret[0] if isinstance(ret, (tuple, list)) and ret else ret, which[-1] if which else None,
-                         _t(ret[1]) if isinstance(ret, (tuple, list)) and len(ret) > 1 else None))
-        due[val] = rows
-    okd = bool(due[True]) and all(r[0] is True and r[1] == "then" and r[2] == "self._condition.backtrack" for r in due[True]) and \
-        bool(due[False]) and all(r[1] != "then" for r in due[False]) and any(r[0] is False for r in due[False])
-    chk.expect(okd, "R-C05-2", "a control is due exactly when its condition evaluates true", loc(icar),
-               found={k: [(str(a), b, c) for a, b, c in v] for k, v in due.items()})
+    okd, due = _control_due_facts(repo, icar)
+    chk.expect(okd, "R-C05-2", "a control is due exactly when its condition evaluates true", loc(icar), found=due)
     rrca = repo.func(CTRL, "Rule.run_control_action")
-    okw = []
-    for o in _live(_sx(attrs={"self._which": "then"}).run(rrca)):
-        lv = _loop_vars(o)
-        ce = [(cal, lp) for cal, a, kw, lp, i in _call_events(o) if cal.endswith(".run_control_action")]
-        okw.append(bool(ce) and all(lp == "self._then_actions" and lv.get(lp) == [cal[:-len(".run_control_action")]] for cal, lp in ce))
-    chk.expect(bool(okw) and all(okw), "R-C05-2", "running a control runs its then-actions", loc(rrca))
+    ran = []
+    acts = {k: [Obj(k + str(i), {"run_control_action": (lambda k=k, i=i: ran.append(k + str(i)))}, cls="ControlAction") for i in (1, 2)] for k in ("then", "else")}
+    me = Obj("the control", {"_which": "then", "_then_actions": acts["then"], "_else_actions": acts["else"]}, cls="Rule")
+    make, _log = _concrete(repo, CTRL)
+    r = _run_concrete("Rule.run_control_action", lambda: make({rrca.args.args[0].arg: me}, owner="Rule").run(rrca.body))
+    chk.expect(ran == ["then1", "then2"], "R-C05-2", "running a control runs its then-actions", loc(rrca), found=r if isinstance(r, tuple) else ran)
     chk.floor("R-C05-2", 11)
 
     # ---------------------------------------------------------------- R-C05-3 conditions
     ve = repo.func(CTRL, "ValueCondition.evaluate")
     chk.fn(ve)
-    rets = sorted({_t(o.ret) for o in _live(_sx(decide=lambda txt, last: False if last == "isnan" else None).run(ve))})
-    okv = len(rets) == 1 and _is_relation_of_value_and_threshold(rets[0])
+    okv, rets = _value_condition_facts(repo, ve)
     chk.expect(okv, "R-C05-3", "ValueCondition.evaluate applies the stored relation to (current attribute value, threshold)", loc(ve), found=rets)
     # Comparison members carry the matching numpy function
     cmp_cls = repo.cls(CTRL, "Comparison")
@@ -961,49 +1087,59 @@ def run(repo, chk):
     # ---------------------------------------------------------------- R-C05-6 the partial step of a tank-level condition does not depend on who asked first
     tle = repo.func(CTRL, "TankLevelCondition.evaluate")
     chk.fn(tle)
-    tdefs = _name_defs(tle)
-    # the threshold-crossing guard: the tests under which a non-zero partial step is stored; among their forced atoms the NEGATED
-    # two-argument call is `not relation(<value at the last accepted step>, threshold)`
-    guards = []
-    for n in walk(tle):
-        if isinstance(n, ast.Assign) and any(isinstance(t_, ast.Attribute) and t_.attr == "_backtrack" and unparse(t_.value) == "self" for t_ in n.targets) \
-                and const(n.value, "?") != 0:
-            child, p_ = n, parent(n)
-            while p_ is not None and p_ is not tle:
-                if isinstance(p_, ast.If):
-                    for a, pol in _conjuncts(_expand(tle, p_.test, _defs=tdefs), child in p_.body):
-                        if not pol and isinstance(a, ast.Call) and len(a.args) == 2:
-                            guards.append((a, p_))
-                child, p_ = p_, parent(p_)
-    if not guards:
-        raise ExtractError("TankLevelCondition.evaluate: threshold-crossing test not found")
-    own_state = {a.attr for a in walk(tle) if isinstance(a, ast.Attribute) and isinstance(a.ctx, ast.Store) and unparse(a.value) == "self"}
+    def by_definitions():
+        """fallback when the method cannot be evaluated: the same fact read off the definitions (def-use)"""
+        tdefs = _name_defs(tle)
+        # the threshold-crossing guard: the tests under which a non-zero partial step is stored; among their forced atoms the NEGATED
+        # two-argument call is `not relation(<value at the last accepted step>, threshold)`
+        guards = []
+        for n in walk(tle):
+            if isinstance(n, ast.Assign) and any(isinstance(t_, ast.Attribute) and t_.attr == "_backtrack" and unparse(t_.value) == "self" for t_ in n.targets) \
+                    and const(n.value, "?") != 0:
+                child, p_ = n, parent(n)
+                while p_ is not None and p_ is not tle:
+                    if isinstance(p_, ast.If):
+                        for a, pol in _conjuncts(_expand(tle, p_.test, _defs=tdefs), child in p_.body):
+                            if not pol and isinstance(a, ast.Call) and len(a.args) == 2:
+                                guards.append((a, p_))
+                    child, p_ = p_, parent(p_)
+        if not guards:
+            raise ExtractError("TankLevelCondition.evaluate: threshold-crossing test not found")
+        own_state = {a.attr for a in walk(tle) if isinstance(a, ast.Attribute) and isinstance(a.ctx, ast.Store) and unparse(a.value) == "self"}
 
-    def reaches(expr, leaf, seen=()):
-        """does the value derive (through the definitions of the locals it mentions, on some path) from a node satisfying leaf()?"""
-        for x in ast.walk(expr):
-            if leaf(x):
-                return True
-            if isinstance(x, ast.Name) and x.id not in seen:
-                for a in walk(tle):
-                    if isinstance(a, ast.Assign) and any(isinstance(t_, ast.Name) and t_.id == x.id for t_ in a.targets) and reaches(a.value, leaf, seen + (x.id,)):
-                        return True
-        return False
+        def reaches(expr, leaf, seen=()):
+            """does the value derive (through the definitions of the locals it mentions, on some path) from a node satisfying leaf()?"""
+            for x in ast.walk(expr):
+                if leaf(x):
+                    return True
+                if isinstance(x, ast.Name) and x.id not in seen:
+                    for a in walk(tle):
+                        if isinstance(a, ast.Assign) and any(isinstance(t_, ast.Name) and t_.id == x.id for t_ in a.targets) and reaches(a.value, leaf, seen + (x.id,)):
+                            return True
+            return False
 
-    def tank_leaf(x):
-        return (isinstance(x, ast.Attribute) and x.attr == "_prev_head") or (isinstance(x, ast.Constant) and x.value == "_prev_head")
+        def tank_leaf(x):
+            return (isinstance(x, ast.Attribute) and x.attr == "_prev_head") or (isinstance(x, ast.Constant) and x.value == "_prev_head")
 
-    def memo_leaf(x):
-        return isinstance(x, ast.Attribute) and unparse(x.value) == "self" and x.attr in own_state
-    okp, found = True, []
-    for call_, if_ in guards:
-        prev_expr, _d = _strip_round(call_.args[0])
-        okp = okp and (reaches(prev_expr, tank_leaf) or not reaches(prev_expr, memo_leaf))
-        if unparse(prev_expr) not in found:
-            found.append(unparse(prev_expr))
-    chk.expect(okp, "R-C05-6", "the 'value at the last accepted step' a tank-level condition compares with comes from the tank, not from a field evaluate() overwrites", loc(tle, guards[0][1]),
-               "evaluate() sets self._last_value on every call: the second control that shares the condition object (the simulator itself pairs every setting control with a "
-               "status control on the SAME condition) sees 'already beyond the threshold' and gets no partial step", expected="derived from tank._prev_head", found=found)
+        def memo_leaf(x):
+            return isinstance(x, ast.Attribute) and unparse(x.value) == "self" and x.attr in own_state
+        okp, found = True, []
+        for call_, if_ in guards:
+            prev_expr, _d = _strip_round(call_.args[0])
+            okp = okp and (reaches(prev_expr, tank_leaf) or not reaches(prev_expr, memo_leaf))
+            if unparse(prev_expr) not in found:
+                found.append(unparse(prev_expr))
+        return okp, found, guards[0][1]
+    detail6 = ("evaluate() sets self._last_value on every call: the second control that shares the condition object (the simulator itself pairs every setting control with a "
+               "status control on the SAME condition) sees 'already beyond the threshold' and gets no partial step")
+    what6 = "the 'value at the last accepted step' a tank-level condition compares with comes from the tank, not from a field evaluate() overwrites"
+    try:
+        okp, found = _tank_condition_facts(repo, tle)
+        chk.expect(okp, "R-C05-6", what6, loc(tle), detail6, expected="two evaluations within one step give the same positive partial step", found=found)
+    except Unknown as e:
+        chk.note("R-C05-6 decided on the definitions (evaluation not possible: %s)" % e)
+        okp, found, where = by_definitions()
+        chk.expect(okp, "R-C05-6", what6, loc(tle, where), detail6, expected="derived from tank._prev_head", found=found)
 
     # ---------------------------------------------------------------- R-C05-7 conditions see what is reported
     # "condition true on the REPORTED state": the pressure a junction condition reads (node.pressure -> _pressure, written by
@@ -1077,62 +1213,195 @@ def run(repo, chk):
     # tank-level / pressure controls are pre-and-post-solve: among the controls triggered in one step the scheduler must take the one
     # whose threshold is crossed FIRST (largest partial step) and let priority decide only among equal instants; post-solve lists are
     # priority ordered (shared implementation with R-C04-3)
-    from .c04 import sort_order_rules
-    sort_order_rules(repo, chk, "R-C05-4")
+    _firing_order_rules(repo, chk, "R-C05-4")
 
 
 # ====================================================================================================================
 # fact extractors used above
 # ====================================================================================================================
-def _is_relation_of_value_and_threshold(txt):
-    """bool(self._relation.func(round(getattr(self._source_obj, self._source_attr), d), round(self._threshold, d))) up to bool() and the
-    spelling of the rounding"""
-    try:
-        e = ast.parse(txt, mode="eval").body
-    except SyntaxError:
-        return False
-    while isinstance(e, ast.Call) and isinstance(e.func, ast.Name) and e.func.id == "bool" and len(e.args) == 1:
-        e = e.args[0]
-    if not (isinstance(e, ast.Call) and unparse(e.func) == "self._relation.func" and len(e.args) == 2 and not e.keywords):
-        return False
-    (a, da), (b, db) = _strip_round(e.args[0]), _strip_round(e.args[1])
-    return da == db and unparse(a) == "getattr(self._source_obj, self._source_attr)" and unparse(b) == "self._threshold"
+class _Renamed(object):
+    """a Check seen through a rule-id mapping: obligations of the mapped rules are recorded under the new id, all others are dropped"""
+
+    def __init__(self, chk, mapping):
+        self._chk, self._map = chk, mapping
+
+    def _r(self, rule):
+        return self._map.get(rule)
+
+    def ok(self, rule, *a, **k):
+        return self._chk.ok(self._r(rule), *a, **k) if self._r(rule) else True
+
+    def bad(self, rule, *a, **k):
+        return self._chk.bad(self._r(rule), *a, **k) if self._r(rule) else False
+
+    def expect(self, cond, rule, *a, **k):
+        return self._chk.expect(cond, self._r(rule), *a, **k) if self._r(rule) else bool(cond)
+
+    def floor(self, rule, *a, **k):
+        if self._r(rule):
+            self._chk.floor(self._r(rule), *a, **k)
+
+    def sample(self, obj):
+        if isinstance(obj, dict) and obj.get("rule") in self._map:
+            obj = dict(obj, rule=self._map[obj["rule"]])
+            self._chk.sample(obj)
+
+    def __getattr__(self, name):
+        return getattr(self._chk, name)
 
 
-def _tracker_update_facts(upf):
-    """ControlChangeTracker.update(subject): with T = subject.target() and val = getattr(*T), in a loop over the reference points r of
-    self._previous_values: val == self._previous_values[r][T]  =>  self._changed[r].discard(T), otherwise self._changed[r].add(T)."""
-    ex = _sx()
-    outs = _live(ex.run(upf))
-    T = "subject.target()"
+def _firing_order_rules(repo, chk, rule):
+    """the ordering obligations of the control scheduler are decided in c04 (R-C04-3); here they are reported under `rule`"""
+    from . import c04
+    if hasattr(c04, "sort_order_rules"):
+        return c04.sort_order_rules(repo, chk, rule)
+    if hasattr(c04, "scheduler_rules"):
+        return c04.scheduler_rules(repo, _Renamed(chk, {"R-C04-3": rule}))
+    raise AnchorError("c04 offers no implementation of the firing-order rules")
 
-    def canon(s):
-        pair = "(%s[0], %s[1])" % (T, T)              # obj, attr = subject.target() ... (obj, attr)
-        s = s.replace("*" + T, "%s[0], %s[1]" % (T, T)).replace("[" + pair + "]", "[" + T + "]")
-        if s == pair:
-            s = T
-        return s.replace(" ", "")
-    cur = canon("getattr(%s[0], %s[1])" % (T, T))
-    seen, verdicts = [], []
-    for o in outs:
-        lv = _loop_vars(o)
-        rp = [(it, tv[0]) for it, tv in lv.items() if it.replace(" ", "") in ("self._previous_values.keys()", "self._previous_values", "list(self._previous_values)",
-                                                                             "list(self._previous_values.keys())", "self._changed", "self._changed.keys()") and len(tv) == 1]
-        if len(rp) != 1:
-            return False, "loop over the reference points not found"
-        it, r = rp[0]
-        old = canon("self._previous_values[%s][%s]" % (r, T))
-        equal = None
-        for t_, v in o.conds:
-            c = canon(t_)
-            for op, same in (("==", True), ("!=", False)):
-                if c in (cur + op + old, old + op + cur):
-                    equal = (v == same)
-        ops = [(cal, a) for cal, a, kw, lp, i in _call_events(o) if lp == it and cal.replace(" ", "").startswith("self._changed[%s]." % r)]
-        kinds = sorted({cal.split(".")[-1] for cal, a in ops if [canon(x) for x in a] == [canon(T)]})
-        seen.append((equal, kinds))
-        verdicts.append(equal is not None and kinds == (["discard"] if equal else ["add"]))
-    return bool(verdicts) and all(verdicts) and {e for e, k in seen} == {True, False}, seen
+
+def _numpy_hook(name, n, ev):
+    """the few numeric library functions the evaluated methods use"""
+    import math
+    last = name.split(".")[-1]
+    if name.split(".")[0] in ("np", "numpy", "math") or name == "round":
+        a = [ev.ev(x) for x in n.args]
+        kw = {k.arg: ev.ev(k.value) for k in n.keywords if k.arg}
+        if last in ("round", "around", "round_") and a and isinstance(a[0], (int, float)) and not isinstance(a[0], bool):
+            d = a[1] if len(a) > 1 else kw.get("decimals", kw.get("ndigits", 0))
+            return round(float(a[0]), d)
+        if last == "isnan" and len(a) == 1 and isinstance(a[0], (int, float)):
+            return math.isnan(a[0])
+        if last in ("floor", "ceil") and len(a) == 1 and isinstance(a[0], (int, float)):
+            return getattr(math, last)(a[0])
+    return NotImplemented
+
+
+def _value_condition_facts(repo, ve):
+    """ValueCondition.evaluate, by evaluation with a recording `greater than` as the stored relation: the result is
+    bool(relation(round(current value, 10), round(threshold, 10))) -- arguments in this order, both rounded to 10 decimals."""
+    rows, ok = [], True
+    for cur, thr in ((3.00000000004, 1.5), (1.0, 1.5), (1.5, 1.49999999996), (-2.0, 0.0)):
+        asked = []
+
+        def greater(a, b):
+            asked.append((a, b))
+            return a > b
+        me = Obj("the condition", {"_source_obj": Obj("junction", {"pressure": cur, "head": -99.0, "level": -98.0}, cls="Junction"), "_source_attr": "pressure",
+                                   "_threshold": thr, "_relation": Obj("Comparison.gt", {"func": greater}), "_backtrack": 0}, cls="ValueCondition")
+        make, _log = _concrete(repo, CTRL, _numpy_hook)
+        r = _run_concrete("ValueCondition.evaluate", lambda: make({ve.args.args[0].arg: me}, owner="ValueCondition").run(ve.body))
+        want = (round(cur, 10) > round(thr, 10), [(round(cur, 10), round(thr, 10))])
+        rows.append({"value": cur, "threshold": thr, "returns": _nm(r), "relation asked for": list(asked)})
+        ok = ok and isinstance(r, bool) and (r, asked) == want
+    return ok, rows
+
+
+def _tank_condition_facts(repo, tle):
+    """TankLevelCondition.evaluate, by evaluation: a filling tank crossed its threshold during the step (level 4.9 m at the last accepted
+    step, 5.3 m now, threshold 5.0 m, relation >=).  Two controls share the condition object, so it is evaluated twice before the step
+    is accepted: both evaluations must report the condition as true with the same positive partial step.  -> (ok, rows); raises Unknown
+    when the method uses something the evaluator does not model."""
+    import math
+    import operator
+    rel = {nm: _Fn("Comparison." + nm, f) for nm, f in (("ge", operator.ge), ("le", operator.le), ("gt", operator.gt), ("lt", operator.lt),
+                                                        ("eq", operator.eq), ("ne", operator.ne))}
+    for nm in rel:
+        rel[nm].attrs["func"] = rel[nm].fn
+    names = {"Comparison." + nm: o for nm, o in rel.items()}
+    names.update({"math.pi": math.pi, "np.pi": math.pi, "np.greater": _Fn("np.greater", operator.gt), "np.less": _Fn("np.less", operator.lt)})
+    rows, ok = [], True
+    for attr, now, last, thr in (("level", 5.3, 4.9, 5.0), ("head", 15.3, 14.9, 15.0), ("pressure", 5.3, 4.9, 5.0)):
+        tank = Obj("tank", {"level": 5.3, "head": 15.3, "pressure": 5.3, "elevation": 10.0, "_prev_head": 14.9, "diameter": 2.0, "vol_curve": None,
+                            "demand": 0.05, "_head": 15.3, "name": "T1"}, cls="Tank")
+        me = Obj("the condition", {"_source_obj": tank, "_source_attr": attr, "_threshold": thr, "_relation": rel["ge"], "_last_value": last, "_backtrack": 0},
+                 cls="TankLevelCondition")
+        want = int(math.floor((now - thr) * math.pi / 4.0 * 2.0 ** 2 / 0.05))
+        got = []
+        for k in (1, 2):
+            make, _log = _concrete(repo, CTRL, _numpy_hook, names=names)
+            try:
+                r = make({tle.args.args[0].arg: me}, owner="TankLevelCondition").run(tle.body)
+            except Raised as e:
+                r = ("raises", unparse(e.node).split("\n")[0][:80])
+            got.append((_nm(r), _nm(me.attrs.get("_backtrack"))))
+        rows.append({"tank %s" % attr: now, "at the last accepted step": last, "threshold": thr, "1st evaluation (state, partial step)": got[0],
+                     "2nd evaluation": got[1], "expected partial step": want})
+        # (the size of the partial step is C06's business; here: the same positive step for whoever asks)
+        ok = ok and got[0] == got[1] and got[0][0] is True and isinstance(got[0][1], int) and got[0][1] > 0
+    return ok, rows
+
+
+def _action_objects(cls_name, fields, told):
+    link = Obj("link", {"status": 0, "_user_status": 0, "_internal_status": 0, "_setting": 0.0, "initial_status": 0}, cls="Pipe")
+    obs = [Obj(nm, {"update": (lambda sub, nm=nm: told.append((nm, _nm(sub), dict(link.attrs))))}, cls="Observer") for nm in ("o1", "o2")]
+    me = Obj("the action", dict(fields, _target_obj=link, _value=7, _observers=obs), cls=cls_name)
+    return link, me
+
+
+def _action_run_facts(repo, cls_name, fields, written):
+    told = []
+    link, me = _action_objects(cls_name, fields, told)
+    before = dict(link.attrs)
+    fn = repo.func(CTRL, cls_name + ".run_control_action")
+    make, _log = _concrete(repo, CTRL)
+    r = _run_concrete(cls_name + ".run_control_action", lambda: make({fn.args.args[0].arg: me}, owner=cls_name).run(fn.body))
+    want_attrs = dict(before)
+    want_attrs[written] = 7
+    seen = {"link after the action": dict(link.attrs), "observers told (observer, subject, link at that moment)": told}
+    if isinstance(r, tuple) and r and r[0] == "raises":
+        return False, r
+    return link.attrs == want_attrs and told == [(nm, "the action", want_attrs) for nm in ("o1", "o2")], seen
+
+
+def _action_target_facts(repo, cls_name, fields):
+    link, me = _action_objects(cls_name, fields, [])
+    fn = repo.func(CTRL, cls_name + ".target")
+    make, _log = _concrete(repo, CTRL)
+    r = _run_concrete(cls_name + ".target", lambda: make({fn.args.args[0].arg: me}, owner=cls_name).run(fn.body))
+    return isinstance(r, (tuple, list)) and len(r) == 2 and r[0] is link and r[1] == "status", _nm(r)
+
+
+def _control_due_facts(repo, icar):
+    """Rule.is_control_action_required, by evaluation: condition true -> (True, the condition's backtrack) with the then-branch selected, with or
+    without else-actions; condition false and no else-actions -> not due; condition false never selects the then-branch."""
+    rows, ok = [], True
+    for val in (True, False):
+        for els in (None, [], ["an else action"]):
+            cond = Obj("the condition", {"evaluate": (lambda val=val: val), "backtrack": 42, "_backtrack": 42}, cls="ValueCondition")
+            me = Obj("the control", {"_condition": cond, "_then_actions": ["a then action"], "_else_actions": els, "_which": None}, cls="Rule")
+            make, _log = _concrete(repo, CTRL)
+            r = _run_concrete("Rule.is_control_action_required", lambda: make({icar.args.args[0].arg: me}, owner="Rule").run(icar.body))
+            which = me.attrs.get("_which")
+            rows.append({"condition": val, "else actions": els, "returns": _nm(r), "branch": which})
+            pair = isinstance(r, (tuple, list)) and len(r) == 2
+            if val:
+                ok = ok and pair and r[0] is True and r[1] == 42 and which == "then"
+            else:
+                ok = ok and pair and which != "then" and (r[0] is False if not els else True)
+    return ok, rows
+
+
+def _tracker_update_facts(repo, upf):
+    """ControlChangeTracker.update(subject), by evaluation: a tracker with three reference points -- at `same` the target had the value it
+    has now (and is still listed as changed from an earlier action), at `other` and `other2` it had different values (and is not listed) --
+    is told that the action ran.  Afterwards the target must be listed exactly at the reference points whose value differs from the current
+    PUBLIC value (a change back is not a change; every reference point is treated)."""
+    link = Obj("link", {"status": 1, "_user_status": 0, "_internal_status": 0}, cls="Pipe")
+    T = (link, "status")
+    subject = Obj("action", {"target": (lambda: T), "_target_obj": link, "_attribute": "status", "_private_attribute": "_user_status"}, cls="ControlAction")
+    changed = {"same": {T}, "other": set(), "other2": set()}
+    me = Obj("tracker", {"_previous_values": {"same": {T: 1}, "other": {T: 0}, "other2": {T: 2}}, "_changed": changed, "_actions": {subject: []}}, cls="ControlChangeTracker")
+    make, _log = _concrete(repo, CTRL)
+    params = [a.arg for a in upf.args.args]
+    if len(params) != 2:
+        raise ExtractError("ControlChangeTracker.update: expected (self, subject)")
+    r = _run_concrete("ControlChangeTracker.update", lambda: make({params[0]: me, params[1]: subject}, owner="ControlChangeTracker").run(upf.body))
+    now = me.attrs.get("_changed")
+    seen = {k: (T in v) for k, v in now.items()} if isinstance(now, dict) and all(isinstance(v, (set, list)) for v in now.values()) else _nm(now)
+    if isinstance(r, tuple) and r and r[0] == "raises":
+        return False, r
+    return seen == {"same": False, "other": True, "other2": True}, seen
 
 
 def _read_conditional_control(repo, rcl, word, node_type):
@@ -1155,8 +1424,8 @@ def _read_conditional_control(repo, rcl, word, node_type):
             return Obj("link", {"link_type": "Pipe", "name": ev.ev(n.args[0])}, cls="Pipe")
         if name.endswith("ControlAction"):
             return Obj("action", {}, cls="ControlAction")
-        if name == "to_si":
-            return ev.ev(n.args[1])
+        if name == "to_si" and len(n.args) > 1 and not isinstance(n.args[1], ast.Starred):
+            return ev.ev(n.args[1])          # the unit conversion does not matter here: the threshold keeps its number
         return NotImplemented
     make, log = _concrete(repo, IO, hook)
     line = "LINK P1 OPEN IF NODE N1 %s 12.5" % word
@@ -1222,4 +1491,73 @@ WITNESSES = [
     dict(name="above-below-swapped", file=IO, old="            if current[6] == 'ABOVE':\n                oper = np.greater\n            elif current[6] == 'BELOW':\n                oper = np.less", new="            if current[6] == 'ABOVE':\n                oper = np.less\n            elif current[6] == 'BELOW':\n                oper = np.greater", rule="R-C05-3"),
     dict(name="postsolve-before-store", file=CORE, old="            wntr.sim.hydraulics.store_results_in_network(self._wn, self._model)\n\n            diagnostics.run(last_step='solve and store results in network', next_step='postsolve controls')\n\n            self._run_postsolve_controls()",
          new="            diagnostics.run(last_step='solve and store results in network', next_step='postsolve controls')\n\n            self._run_postsolve_controls()\n            wntr.sim.hydraulics.store_results_in_network(self._wn, self._model)", rule="R-C05-1"),
+    # ---- further mutations: every rewritten rule keeps its teeth
+    dict(name='target-reports-private-attribute', file=CTRL, old='        return self._target_obj, self._attribute\n', new='        return self._target_obj, self._private_attribute\n', rule='R-C05-2'),
+    dict(name='tracker-add-discard-swapped', file=CTRL, old='                self._changed[ref_point].discard(obj_attr)\n            else:\n                self._changed[ref_point].add(obj_attr)\n', new='                self._changed[ref_point].add(obj_attr)\n            else:\n                self._changed[ref_point].discard(obj_attr)\n', rule='R-C05-2'),
+    dict(name='rule-runs-else-actions-when-true', file=CTRL, old="        if self._which == 'then':\n            for control_action in self._then_actions:\n", new="        if self._which == 'then':\n            for control_action in self._else_actions:\n", rule='R-C05-2'),
+    dict(name='control-due-when-false', file=CTRL, old="        if do:\n            self._which = 'then'\n            return True, back\n", new="        if not do:\n            self._which = 'then'\n            return True, back\n", rule='R-C05-2'),
+    dict(name='internal-action-writes-property', file=CTRL, old='        setattr(self._target_obj, self._internal_attr, self._value)\n', new='        setattr(self._target_obj, self._property_attr, self._value)\n', rule='R-C05-2'),
+    dict(name='notify-first-observer-only', file=CTRL, old='        for o in self._observers:\n            o.update(self)\n', new='        for o in self._observers:\n            o.update(self)\n            return\n', rule='R-C05-2'),
+    dict(name='value-condition-arguments-swapped', file=CTRL, old="        state = relation(np.round(cur_value,10), np.round(thresh_value,10))\n        return bool(state)\n\n\n@DocInheritor({'requires', 'evaluate', 'name'})\nclass FunctionCondition", new="        state = relation(np.round(thresh_value,10), np.round(cur_value,10))\n        return bool(state)\n\n\n@DocInheritor({'requires', 'evaluate', 'name'})\nclass FunctionCondition", rule='R-C05-3'),
+    dict(name='parse-above-means-less', file=CTRL, old="'-gt', 'above', 'after',", new="'-gt', 'after',", also=[("'-lt', 'below', 'before',", "'-lt', 'above', 'below', 'before',")], rule='R-C05-3'),
+    dict(name='conditional-control-ignores-operation', file=CTRL, old='relation=operation,\n                                   threshold=threshold)', new='relation=Comparison.gt,\n                                   threshold=threshold)', rule='R-C05-3'),
+    dict(name='tank-pressure-condition-not-partial', file=CTRL, old="source_attr in {'level',  'pressure', 'head'}:\n            return object.__new__(TankLevelCondition)", new="source_attr in {'level', 'head'}:\n            return object.__new__(TankLevelCondition)", rule='R-C05-3'),
+    dict(name='reader-tank-control-on-head', file=IO, old="control_obj = Control._conditional_control(node, 'level', oper,", new="control_obj = Control._conditional_control(node, 'head', oper,", rule='R-C05-3'),
+    dict(name='resolve-flag-not-set', file=CORE, old="            if self._change_tracker.changes_made(ref_point='graph'):\n                resolve = True\n", new="            if self._change_tracker.changes_made(ref_point='graph'):\n", rule='R-C05-1'),
+    dict(name='trial-not-counted', file=CORE, old='                trial += 1\n                if trial > max_trials:', new='                if trial > max_trials:', rule='R-C05-1'),
+    dict(name='change-test-on-model-reference', file=CORE, old="            if self._change_tracker.changes_made(ref_point='graph'):\n                resolve = True\n", new="            if self._change_tracker.changes_made(ref_point='model'):\n                resolve = True\n", rule='R-C05-1'),
+    dict(name='graph-reference-never-reset', file=CORE, old="        self._change_tracker.reset_reference_point(key='graph')\n", new='', rule='R-C05-1'),
+    dict(name='postsolve-controls-only-when-logging', file=CORE, old="                logger.log(1, '\\tactivating control {0}'.format(control))\n            control.run_control_action()\n", new="                logger.log(1, '\\tactivating control {0}'.format(control))\n                control.run_control_action()\n", rule='R-C05-1'),
+    dict(name='change-test-before-postsolve-controls', file=CORE, old="            self._run_postsolve_controls()\n            self._run_feasibility_controls()\n            if self._change_tracker.changes_made(ref_point='graph'):\n", new="            changed = self._change_tracker.changes_made(ref_point='graph')\n            self._run_postsolve_controls()\n            self._run_feasibility_controls()\n            if changed:\n", rule='R-C05-1'),
+    dict(name='accept-step-when-changed', file=CORE, old="            if self._change_tracker.changes_made(ref_point='graph'):\n                resolve = True\n", new="            if not self._change_tracker.changes_made(ref_point='graph'):\n                resolve = True\n", rule='R-C05-1'),
+    dict(name='tank-level-controls-postsolve-only', file=CTRL, old='        if isinstance(condition, TankLevelCondition):\n            return _ControlType.pre_and_postsolve\n', new='        if isinstance(condition, TankLevelCondition):\n            return _ControlType.postsolve\n', rule='R-C05-5'),
+    dict(name='connected-junction-reports-head', file=HYD, old="            node_res['pressure'][name].append(node.head - node.elevation)\n        node_res['leak_demand'][name].append(node.leak_demand)\n\n    for name, node in wn.tanks():", new="            node_res['pressure'][name].append(node.head)\n        node_res['leak_demand'][name].append(node.leak_demand)\n\n    for name, node in wn.tanks():", rule='R-C05-7'),
+    # ---- behaviour-preserving rewrites of the CURRENT source (silent=True): the rules must stay quiet on them
+    dict(name='action-map-as-lookup-table', file=CTRL, old="        self._private_attribute = attribute\n        if attribute == 'status':\n            self._private_attribute = '_user_status'\n        elif attribute == 'leak_status':\n            self._private_attribute = '_leak_status'\n        elif attribute == 'setting':\n            self._private_attribute = '_setting'\n", new="        self._private_attribute = {'status': '_user_status', 'leak_status': '_leak_status', 'setting': '_setting'}.get(attribute, attribute)\n", silent=True),
+    dict(name='action-map-as-conditional-expression', file=CTRL, old="        self._private_attribute = attribute\n        if attribute == 'status':\n            self._private_attribute = '_user_status'\n        elif attribute == 'leak_status':\n            self._private_attribute = '_leak_status'\n        elif attribute == 'setting':\n            self._private_attribute = '_setting'\n", new="        private = '_user_status' if attribute == 'status' else ('_' + attribute if attribute in ('leak_status', 'setting') else attribute)\n        self._private_attribute = private\n", silent=True),
+    dict(name='run-action-hoisted-locals', file=CTRL, old='        setattr(self._target_obj, self._private_attribute, self._value)\n        self.notify()', new='        target, field = self._target_obj, self._private_attribute\n        new_value = self._value\n        setattr(target, field, new_value)\n        self.notify()', silent=True),
+    dict(name='target-via-temporary', file=CTRL, old='        return self._target_obj, self._attribute\n', new='        public = self._attribute\n        result = (self._target_obj, public)\n        return result\n', silent=True),
+    dict(name='tracker-update-renamed-and-negated', file=CTRL, old='        obj_attr = subject.target()\n        val = getattr(*obj_attr)\n        for ref_point in self._previous_values.keys():\n            if val == self._previous_values[ref_point][obj_attr]:\n                self._changed[ref_point].discard(obj_attr)\n            else:\n                self._changed[ref_point].add(obj_attr)\n', new='        key = subject.target()\n        current = getattr(*key)\n        for point in self._previous_values.keys():\n            changed = self._changed[point]\n            if current != self._previous_values[point][key]:\n                changed.add(key)\n            else:\n                changed.discard(key)\n', silent=True),
+    dict(name='tracker-update-unpacked-target', file=CTRL, old='        obj_attr = subject.target()\n        val = getattr(*obj_attr)\n        for ref_point in self._previous_values.keys():\n            if val == self._previous_values[ref_point][obj_attr]:\n                self._changed[ref_point].discard(obj_attr)\n            else:\n                self._changed[ref_point].add(obj_attr)\n', new='        obj, attr = subject.target()\n        val = getattr(obj, attr)\n        for ref_point in self._previous_values:\n            if val == self._previous_values[ref_point][(obj, attr)]:\n                self._changed[ref_point].discard((obj, attr))\n            else:\n                self._changed[ref_point].add((obj, attr))\n', silent=True),
+    dict(name='notify-renamed-loop-variable', file=CTRL, old='        for o in self._observers:\n            o.update(self)\n', new='        for observer in self._observers:\n            observer.update(self)\n', silent=True),
+    dict(name='control-due-early-returns', file=CTRL, old="        if do:\n            self._which = 'then'\n            return True, back\n        elif not do and self._else_actions is not None and len(self._else_actions) > 0:\n            self._which = 'else'\n            return True, back\n        else:\n            return False, None\n", new="        if do:\n            self._which = 'then'\n            return True, back\n        if self._else_actions is not None and len(self._else_actions) > 0:\n            self._which = 'else'\n            return True, back\n        return False, None\n", silent=True),
+    dict(name='rule-run-single-loop', file=CTRL, old="        if self._which == 'then':\n            for control_action in self._then_actions:\n                control_action.run_control_action()\n        elif self._which == 'else':\n            for control_action in self._else_actions:\n                control_action.run_control_action()\n        else:\n            raise RuntimeError('control actions called even though if-then statement was False')\n", new="        if self._which == 'then':\n            actions_to_run = self._then_actions\n        elif self._which == 'else':\n            actions_to_run = self._else_actions\n        else:\n            raise RuntimeError('control actions called even though if-then statement was False')\n        for action in actions_to_run:\n            action.run_control_action()\n", silent=True),
+    dict(name='rule-run-lookup-table', file=CTRL, old="        if self._which == 'then':\n            for control_action in self._then_actions:\n                control_action.run_control_action()\n        elif self._which == 'else':\n            for control_action in self._else_actions:\n                control_action.run_control_action()\n        else:\n            raise RuntimeError('control actions called even though if-then statement was False')\n", new="        branches = {'then': self._then_actions, 'else': self._else_actions}\n        if self._which not in branches:\n            raise RuntimeError('control actions called even though if-then statement was False')\n        for control_action in branches[self._which]:\n            control_action.run_control_action()\n", silent=True),
+    dict(name='value-condition-conditional-expressions', file=CTRL, old='        cur_value = getattr(self._source_obj, self._source_attr)\n        thresh_value = self._threshold\n        relation = self._relation.func\n        if np.isnan(self._threshold):\n            relation = np.greater\n            thresh_value = 0.0\n        state = relation(np.round(cur_value,10), np.round(thresh_value,10))\n        return bool(state)\n', new='        no_threshold = np.isnan(self._threshold)\n        compare = np.greater if no_threshold else self._relation.func\n        limit = 0.0 if no_threshold else self._threshold\n        current = getattr(self._source_obj, self._source_attr)\n        return bool(compare(np.round(current, 10), np.round(limit, 10)))\n', silent=True),
+    dict(name='parse-early-returns', file=CTRL, old='            return cls.eq\n        elif func in [np.not_equal,', new='            return cls.eq\n        if func in [np.not_equal,', also=[('            return cls.ne\n        elif func in [np.greater,', '            return cls.ne\n        if func in [np.greater,'), ('            return cls.gt\n        elif func in [np.less,', '            return cls.gt\n        if func in [np.less,')], silent=True),
+    dict(name='reader-operator-lookup-table', file=IO, old='            if current[6] == \'ABOVE\':\n                oper = np.greater\n            elif current[6] == \'BELOW\':\n                oper = np.less\n            else:\n                raise RuntimeError("The following control is not recognized: " + line)\n', new='            operators = {\'ABOVE\': np.greater, \'BELOW\': np.less}\n            if current[6] not in operators:\n                raise RuntimeError("The following control is not recognized: " + line)\n            oper = operators[current[6]]\n', silent=True),
+    dict(name='reader-operator-conditional-expression', file=IO, old='            if current[6] == \'ABOVE\':\n                oper = np.greater\n            elif current[6] == \'BELOW\':\n                oper = np.less\n            else:\n                raise RuntimeError("The following control is not recognized: " + line)\n', new='            keyword = current[6]\n            if keyword != \'ABOVE\' and keyword != \'BELOW\':\n                raise RuntimeError("The following control is not recognized: " + line)\n            oper = np.greater if keyword == \'ABOVE\' else np.less\n', silent=True),
+    dict(name='conditional-control-positional', file=CTRL, old='        condition = ValueCondition(source_obj=source_obj, source_attr=source_attr, relation=operation,\n                                   threshold=threshold)\n        control = Control(condition=condition, then_action=control_action)\n        return control\n', new='        return Control(ValueCondition(source_obj, source_attr, operation, threshold), control_action)\n', silent=True),
+    dict(name='value-condition-new-conditional-expression', file=CTRL, old="        if isinstance(source_obj, Tank) and source_attr in {'level',  'pressure', 'head'}:\n            return object.__new__(TankLevelCondition)\n        else:\n            return object.__new__(ValueCondition)\n", new="        on_tank_level = isinstance(source_obj, Tank) and source_attr in ('head', 'level', 'pressure')\n        return object.__new__(TankLevelCondition if on_tank_level else ValueCondition)\n", silent=True),
+    dict(name='change-test-hoisted-positional', file=CORE, old="            if self._change_tracker.changes_made(ref_point='graph'):\n                resolve = True\n", new="            controls_changed_something = self._change_tracker.changes_made('graph')\n            if controls_changed_something:\n                resolve = True\n", silent=True),
+    dict(name='trial-and-time-plain-assignment', file=CORE, old='                trial += 1\n', new='                trial = trial + 1\n', also=[('            self._wn.sim_time += self._hydraulic_timestep\n', '            self._wn.sim_time = self._wn.sim_time + self._hydraulic_timestep\n')], silent=True),
+    dict(name='resolve-flag-renamed-and-compared', file=CORE, old='        resolve = False\n        # this is used', new='        solve_again = False\n        # this is used', also=[('            if not resolve:\n', '            if solve_again == False:\n'), ('            if not first_step and not resolve:\n', '            if not first_step and not solve_again:\n'), ('                resolve = True\n', '                solve_again = True\n'), ('            resolve = False\n            if not isinstance', '            solve_again = False\n            if not isinstance'), ('        trial = -1\n', '        attempt = -1\n'), ('                trial = 0\n', '                attempt = 0\n'), ('self._get_time(), trial, str(iter_count)', 'self._get_time(), attempt, str(iter_count)'), ('                trial += 1\n                if trial > max_trials:', '                attempt += 1\n                if attempt > max_trials:')], silent=True),
+    dict(name='no-change-branch-first', file=CORE, old="            if self._change_tracker.changes_made(ref_point='graph'):\n                resolve = True\n", new="            if not self._change_tracker.changes_made(ref_point='graph'):\n                pass\n            else:\n                resolve = True\n", silent=True),
+    dict(name='postsolve-loop-by-index', file=CORE, old="        for control, unused in postsolve_controls_to_run:\n            if logger.getEffectiveLevel() <= 1:\n                logger.log(1, '\\tactivating control {0}'.format(control))\n            control.run_control_action()\n", new="        for entry in postsolve_controls_to_run:\n            if logger.getEffectiveLevel() <= 1:\n                logger.log(1, '\\tactivating control {0}'.format(entry[0]))\n            entry[0].run_control_action()\n", silent=True),
+    dict(name='graph-reference-reset-positional', file=CORE, old="        self._change_tracker.reset_reference_point(key='graph')\n", new="        tracker = self._change_tracker\n        tracker.reset_reference_point('graph')\n", silent=True),
+    dict(name='control-type-early-returns', file=CTRL, old='            return _ControlType.pre_and_postsolve\n        elif isinstance(condition, (TimeOfDayCondition, SimTimeCondition)):\n            return _ControlType.presolve\n        else:\n            return _ControlType.postsolve\n', new='            return _ControlType.pre_and_postsolve\n        if isinstance(condition, (TimeOfDayCondition, SimTimeCondition)):\n            return _ControlType.presolve\n        return _ControlType.postsolve\n', silent=True),
+    dict(name='control-type-inline-conditional-expression', file=CTRL, old='        if isinstance(condition, TankLevelCondition):\n            return _ControlType.pre_and_postsolve\n        elif isinstance(condition, (TimeOfDayCondition, SimTimeCondition)):\n            return _ControlType.presolve\n        else:\n            return _ControlType.postsolve\n', new='        timed = isinstance(condition, TimeOfDayCondition) or isinstance(condition, SimTimeCondition)\n        return (_ControlType.pre_and_postsolve if isinstance(condition, TankLevelCondition) else\n                _ControlType.presolve if timed else _ControlType.postsolve)\n', silent=True),
+    dict(name='update-condition-type-first', file=CTRL, old='        super().update_condition(condition)\n        self._control_type = self._control_type_of(condition)\n', new='        self._control_type = Control._control_type_of(condition)\n        Rule.update_condition(self, condition)\n', silent=True),
+    dict(name='tank-evaluate-renamed-locals-hoisted-guard', file=CTRL, old='        state = relation(np.round(cur_value,10), np.round(thresh_value,10))  # determine if the condition is satisfied\n', new='        satisfied = relation(np.round(cur_value,10), np.round(thresh_value,10))  # determine if the condition is satisfied\n', also=[('        if state and not relation(np.round(last_value,10), np.round(thresh_value,10)):', '        before = np.round(last_value, 10)\n        was_satisfied = relation(before, np.round(thresh_value,10))\n        if satisfied and was_satisfied == False:'), ('        self._last_value = cur_value  # update the last value\n        return bool(state)', '        self._last_value = cur_value  # update the last value\n        return bool(satisfied)')], silent=True),
+    dict(name='report-pressure-conditional-expression', file=HYD, old="        if node._is_isolated:\n            node_res['pressure'][name].append(0.0)\n        else:\n            node_res['pressure'][name].append(node.head - node.elevation)\n", new="        pressure = 0.0 if node._is_isolated else node.head - node.elevation\n        node_res['pressure'][name].append(pressure)\n", silent=True),
+    dict(name='store-head-hoisted-and-not-isolated-first', file=HYD, old='        if node._is_isolated:\n            # zero pressure: the head of a cut-off junction is its elevation (a head of 0 would be read as a\n            # real head by the status rules of check valves, pumps and tanks when the network lies below datum 0)\n            node._head = node.elevation\n            node._demand = 0\n            node._pressure = 0\n            node._leak_demand = 0\n        else:\n            node._head = m.head[name].value\n            node._pressure = m.head[name].value - node.elevation\n', new='        if node._is_isolated == False:\n            head = m.head[name].value\n            node._head = head\n            node._pressure = head - node.elevation\n        else:\n            node._head = node.elevation\n            node._demand = 0\n            node._pressure = 0\n            node._leak_demand = 0\n        if not node._is_isolated:\n', silent=True),
+    dict(name='junction-loop-variable-renamed', file=HYD, old="    for name, node in wn.junctions():\n        node_res['head'][name].append(node.head)\n        node_res['demand'][name].append(node.demand)\n        if node._is_isolated:\n            node_res['pressure'][name].append(0.0)\n        else:\n            node_res['pressure'][name].append(node.head - node.elevation)\n        node_res['leak_demand'][name].append(node.leak_demand)\n", new="    for junction_name, junction in wn.junctions():\n        node_res['head'][junction_name].append(junction.head)\n        node_res['demand'][junction_name].append(junction.demand)\n        if junction._is_isolated:\n            node_res['pressure'][junction_name].append(0.0)\n        else:\n            node_res['pressure'][junction_name].append(junction.head - junction.elevation)\n        node_res['leak_demand'][junction_name].append(junction.leak_demand)\n", silent=True),
+    dict(name='action-map-extracted-helper', file=CTRL, old="        self._private_attribute = attribute\n        if attribute == 'status':\n            self._private_attribute = '_user_status'\n        elif attribute == 'leak_status':\n            self._private_attribute = '_leak_status'\n        elif attribute == 'setting':\n            self._private_attribute = '_setting'\n\n    def requires(self):\n", new="        self._private_attribute = self._runtime_field(attribute)\n\n    @staticmethod\n    def _runtime_field(attribute):\n        if attribute == 'status':\n            return '_user_status'\n        if attribute in ('leak_status', 'setting'):\n            return '_' + attribute\n        return attribute\n\n    def requires(self):\n", silent=True),
+    dict(name='reported-pressure-extracted-helper', file=HYD, old="        if node._is_isolated:\n            node_res['pressure'][name].append(0.0)\n        else:\n            node_res['pressure'][name].append(node.head - node.elevation)\n", new="        node_res['pressure'][name].append(_reported_junction_pressure(node))\n", also=[('def save_results(wn, node_res, link_res):\n', 'def _reported_junction_pressure(junction):\n    if junction._is_isolated:\n        return 0.0\n    return junction.head - junction.elevation\n\n\ndef save_results(wn, node_res, link_res):\n')], silent=True),
+    dict(name='resolve-branch-extracted-helper', file=CORE, old="                resolve = True\n                self._update_internal_graph()\n                wntr.sim.hydraulics.update_model_for_controls(self._model, self._wn, self._model_updater, self._change_tracker)\n                diagnostics.run(last_step='postsolve controls and model updates', next_step='solve next trial')\n", new='                resolve = True\n                self._prepare_next_trial(diagnostics)\n', also=[('    def _initialize_name_id_maps(self):\n', "    def _prepare_next_trial(self, diagnostics):\n        self._update_internal_graph()\n        wntr.sim.hydraulics.update_model_for_controls(self._model, self._wn, self._model_updater, self._change_tracker)\n        diagnostics.run(last_step='postsolve controls and model updates', next_step='solve next trial')\n\n    def _initialize_name_id_maps(self):\n")], silent=True),
+    dict(name='accept-step-extracted-helper', file=CORE, old='            wntr.sim.hydraulics.update_network_previous_values(self._wn)\n            first_step = False\n            self._wn.sim_time += self._hydraulic_timestep\n            overstep = float(self._wn.sim_time) % self._hydraulic_timestep\n            self._wn.sim_time -= overstep\n', new='            self._accept_step_and_advance()\n            first_step = False\n', also=[('    def _initialize_name_id_maps(self):\n', '    def _accept_step_and_advance(self):\n        wntr.sim.hydraulics.update_network_previous_values(self._wn)\n        self._wn.sim_time += self._hydraulic_timestep\n        overstep = float(self._wn.sim_time) % self._hydraulic_timestep\n        self._wn.sim_time -= overstep\n\n    def _initialize_name_id_maps(self):\n')], silent=True),
+    dict(name='tracker-update-extracted-helper', file=CTRL, old='        for ref_point in self._previous_values.keys():\n            if val == self._previous_values[ref_point][obj_attr]:\n                self._changed[ref_point].discard(obj_attr)\n            else:\n                self._changed[ref_point].add(obj_attr)\n', new='        for ref_point in self._previous_values.keys():\n            self._record(ref_point, obj_attr, val)\n\n    def _record(self, ref_point, target, value):\n        if value == self._previous_values[ref_point][target]:\n            self._changed[ref_point].discard(target)\n        else:\n            self._changed[ref_point].add(target)\n', silent=True),
+    dict(name='postsolve-loop-over-projection', file=CORE, old="        for control, unused in postsolve_controls_to_run:\n            if logger.getEffectiveLevel() <= 1:\n                logger.log(1, '\\tactivating control {0}'.format(control))\n            control.run_control_action()\n", new="        for control in [c for c, _ in postsolve_controls_to_run]:\n            if logger.getEffectiveLevel() <= 1:\n                logger.log(1, '\\tactivating control {0}'.format(control))\n            control.run_control_action()\n", silent=True),
+    dict(name='notify-over-copy', file=CTRL, old='        for o in self._observers:\n            o.update(self)\n', new='        for o in list(self._observers):\n            o.update(self)\n', silent=True),
+    dict(name='control-type-extracted-table', file=CTRL, old='        if isinstance(condition, TankLevelCondition):\n            return _ControlType.pre_and_postsolve\n        elif isinstance(condition, (TimeOfDayCondition, SimTimeCondition)):\n            return _ControlType.presolve\n        else:\n            return _ControlType.postsolve\n', new='        for classes, control_type in ((TankLevelCondition, _ControlType.pre_and_postsolve),\n                                      ((TimeOfDayCondition, SimTimeCondition), _ControlType.presolve)):\n            if isinstance(condition, classes):\n                return control_type\n        return _ControlType.postsolve\n', silent=True),
+    dict(name='reader-conditional-control-extracted-helper', file=IO, old="            if node.node_type == 'Junction':\n                threshold = to_si(flow_units,\n                                  float(current[7]), HydParam.Pressure)# + node.elevation\n                control_obj = Control._conditional_control(node, 'pressure', oper, threshold, action_obj, control_name)\n            elif node.node_type == 'Tank':\n                threshold = to_si(flow_units, \n                                  float(current[7]), HydParam.HydraulicHead)# + node.elevation\n                control_obj = Control._conditional_control(node, 'level', oper, threshold, action_obj, control_name)\n", new="            attribute, param = {'Junction': ('pressure', HydParam.Pressure), 'Tank': ('level', HydParam.HydraulicHead)}.get(node.node_type, (None, None))\n            if attribute is not None:\n                threshold = to_si(flow_units, float(current[7]), param)\n                control_obj = Control._conditional_control(node, attribute, oper, threshold, action_obj, control_name)\n", silent=True),
+    dict(name='tracker-first-reference-point-only', file=CTRL, old='                self._changed[ref_point].add(obj_attr)\n\n    def register_control(self, control):', new='                self._changed[ref_point].add(obj_attr)\n            break\n\n    def register_control(self, control):', rule='R-C05-2'),
+    dict(name='tracker-compares-private-field', file=CTRL, old='        val = getattr(*obj_attr)\n', new='        val = getattr(subject._target_obj, subject._private_attribute)\n', rule='R-C05-2'),
+    dict(name='value-condition-not-rounded', file=CTRL, old="        state = relation(np.round(cur_value,10), np.round(thresh_value,10))\n        return bool(state)\n\n\n@DocInheritor({'requires', 'evaluate', 'name'})\nclass FunctionCondition", new="        state = relation(cur_value, thresh_value)\n        return bool(state)\n\n\n@DocInheritor({'requires', 'evaluate', 'name'})\nclass FunctionCondition", rule='R-C05-3'),
+    dict(name='action-notifies-before-writing', file=CTRL, old='        setattr(self._target_obj, self._private_attribute, self._value)\n        self.notify()', new='        self.notify()\n        setattr(self._target_obj, self._private_attribute, self._value)', rule='R-C05-2'),
+    dict(name='tracker-update-over-items', file=CTRL, old='        val = getattr(*obj_attr)\n        for ref_point in self._previous_values.keys():\n            if val == self._previous_values[ref_point][obj_attr]:\n', new='        current_value = getattr(*obj_attr)\n        for ref_point, previous in self._previous_values.items():\n            if current_value == previous[obj_attr]:\n', silent=True),
+    dict(name='control-due-explicit-bool-and-property-inlined', file=CTRL, old='        do = self._condition.evaluate()\n        back = self._condition.backtrack\n        if do:\n', new='        condition = self._condition\n        do = bool(condition.evaluate())\n        back = condition.backtrack\n        if do == True:\n', silent=True),
+    dict(name='value-condition-builtin-round', file=CTRL, old="        state = relation(np.round(cur_value,10), np.round(thresh_value,10))\n        return bool(state)\n\n\n@DocInheritor({'requires', 'evaluate', 'name'})\nclass FunctionCondition", new="        digits = 10\n        return bool(relation(np.around(cur_value, decimals=digits), np.around(thresh_value, decimals=digits)))\n\n\n@DocInheritor({'requires', 'evaluate', 'name'})\nclass FunctionCondition", silent=True),
+    dict(name='internal-action-hoisted-target', file=CTRL, old='        setattr(self._target_obj, self._internal_attr, self._value)\n        self.notify()', new='        target = self._target_obj\n        setattr(target, self._internal_attr, self._value)\n        self.notify()', silent=True),
+    dict(name='accept-step-in-else-branch', file=CORE, old="                continue\n\n            diagnostics.run(last_step='postsolve controls and model updates', next_step='advance time')\n\n            logger.debug('no changes made by postsolve controls; moving to next timestep')\n\n            resolve = False\n            if not isinstance(self._report_timestep, str):  # same test as in _setup_sim_options (numpy integers are numbers too)\n                if self._wn.sim_time % self._report_timestep == 0:\n                    wntr.sim.hydraulics.save_results(self._wn, node_res, link_res)\n                    if len(results.time) > 0 and int(self._wn.sim_time) == results.time[-1]:\n                        if int(self._wn.sim_time) != self._wn.sim_time:\n                            raise RuntimeError('Time steps increments smaller than 1 second are forbidden.'+\n                                               ' Keep time steps as an integer number of seconds.')\n                        else:\n                            raise RuntimeError('Simulation already solved this timestep')\n                    results.time.append(int(self._wn.sim_time))\n            elif self._report_timestep.upper() == 'ALL':\n                wntr.sim.hydraulics.save_results(self._wn, node_res, link_res)\n                if len(results.time) > 0 and int(self._wn.sim_time) == results.time[-1]:\n                    raise RuntimeError('Simulation already solved this timestep')\n                results.time.append(int(self._wn.sim_time))\n            wntr.sim.hydraulics.update_network_previous_values(self._wn)\n            first_step = False\n            self._wn.sim_time += self._hydraulic_timestep\n            overstep = float(self._wn.sim_time) % self._hydraulic_timestep\n            self._wn.sim_time -= overstep\n\n            if self._wn.sim_time > self._wn.options.time.duration:\n                break\n", new="            else:\n                diagnostics.run(last_step='postsolve controls and model updates', next_step='advance time')\n\n                logger.debug('no changes made by postsolve controls; moving to next timestep')\n\n                resolve = False\n                if not isinstance(self._report_timestep, str):  # same test as in _setup_sim_options (numpy integers are numbers too)\n                    if self._wn.sim_time % self._report_timestep == 0:\n                        wntr.sim.hydraulics.save_results(self._wn, node_res, link_res)\n                        if len(results.time) > 0 and int(self._wn.sim_time) == results.time[-1]:\n                            if int(self._wn.sim_time) != self._wn.sim_time:\n                                raise RuntimeError('Time steps increments smaller than 1 second are forbidden.'+\n                                                   ' Keep time steps as an integer number of seconds.')\n                            else:\n                                raise RuntimeError('Simulation already solved this timestep')\n                        results.time.append(int(self._wn.sim_time))\n                elif self._report_timestep.upper() == 'ALL':\n                    wntr.sim.hydraulics.save_results(self._wn, node_res, link_res)\n                    if len(results.time) > 0 and int(self._wn.sim_time) == results.time[-1]:\n                        raise RuntimeError('Simulation already solved this timestep')\n                    results.time.append(int(self._wn.sim_time))\n                wntr.sim.hydraulics.update_network_previous_values(self._wn)\n                first_step = False\n                self._wn.sim_time += self._hydraulic_timestep\n                overstep = float(self._wn.sim_time) % self._hydraulic_timestep\n                self._wn.sim_time -= overstep\n\n                if self._wn.sim_time > self._wn.options.time.duration:\n                    break\n", silent=True),
 ]
